@@ -19,6 +19,7 @@ from .. import core
 from .. import structworld as W
 from .. import struct_props as S
 from .. import struct_api_gen as api
+from .. import batch_api
 from ..impl import mx, close_all, quiet
 
 CFG = {
@@ -75,6 +76,8 @@ def target_sourceless(live, op):
 def classify(live, op, result, before, after, was_sourceless):
     """known findings, recognised from the operation, its outcome and what the implementation did"""
     from .. import formula_objs as FO
+    if op[0] in batch_api.KINDS:
+        return batch_api.classify(live, op, result, before, after)
     if result == "err Deleted":
         # an operation that trips over a reference to a deleted object half-way is the
         # recorded dangling-reference finding (C13-deleted-object-in-formula-globals)
@@ -157,6 +160,13 @@ class H(S.Hooks):
                 # the same description, but not the same objects: handles taken before the refused edit are dead
                 out.fail("%s raised (%s) but replaced objects of the model: %s" % (
                     op[0], result, api.identity_diff(self.ident, api.identities(live.m))), hist)
+            else:
+                # the library's own self-check of the model (graph of spaces against the tree, tracked references)
+                try:
+                    live.m._impl._check_sanity()
+                except AssertionError as e:
+                    out.fail("%s raised (%s) and the model fails its own self-check afterwards: %s" % (
+                        op[0], result, core.impl_error_text(e)), hist)
             return
         defs = W.definitions(live.m)
         py = W.python_c3(defs)
@@ -204,6 +214,7 @@ def run(ctx, out):
                              "for (model-level reference of the name created before / after / not at all), followed by "
                              "re-deriving edits; %d contain a refused edit" % (len(fam), refused))
     api.run_struct(ctx, out, stats, H, CFG, S.run_one)
+    batch_api.run(ctx, out, stats, H, CFG, S.run_one, S.run_family)
     fam = S.formula_object_family()
     S.run_family(out, stats, fam, H, CFG, "formula_object_family")
     out.coverage["evaluations"] += len(fam)
